@@ -138,6 +138,9 @@ def tr_unit(name, fn, n, contract, props, must, extra_assume=()):
 tr_unit('try_auth', '_dbus_transport_try_to_authenticate + auth_via_unix_user_function + auth_via_windows_user_function + auth_via_default_rules', 1,
         'authenticated set only after do_work==AUTHENTICATED and, on the server, after the user function or the default rule (root / same user / allow_anonymous) admitted the authorized identity; anonymous identity only under allow_anonymous; refusal => disconnect; ref/lock balanced',
         ('C08',), ['try_to_authenticate:'], ['the application callbacks return an arbitrary verdict'])
+tr_unit('identity', '_dbus_transport_get_credentials + _dbus_transport_get_unix_user + _dbus_transport_get_unix_process_id', 4,
+        'answers come from the authorized identity of the auth conversation only, and only after authentication',
+        ('C08',), ['identity:'])
 tr_unit('recover', 'recover_unused_bytes', 2,
         'TRUE => the unused handshake bytes were appended to the end of the loader buffer and then deleted from the auth object, once; FALSE => they stay where they were',
         ('C08', 'C11'), ['recover_unused_bytes:'])
